@@ -169,9 +169,9 @@ Proof. vm_compute. repeat split. Qed.
 (* the oracle is not trivially true: a trace in which a stale Update reports success is rejected *)
 Example C14_oracle_rejects :
   c14_oracle (mkCase x0
-    [mkStep (LGet 1 GOk (TOk 5)) ROk true (Some rX) (Some rX) ([88], 5);
-     mkStep (LGet 2 GOk (TOk 6)) ROk true (Some rX) (Some rX) ([88], 6);
-     mkStep (LUpdate 1 idA rA COk (TOk 7)) ROk true None (Some rA) ([88], 7);
-     mkStep (LInfo 2) ROk false None (Some rA) ([88], 6);
-     mkStep (LUpdate 2 idB rB COk (TOk 8)) ROk true None (Some rB) ([88], 8)]) = Some 0.
+    [mkStep (LGet 1 GOk (TOk 5)) ROk true false (Some rX) (Some rX) ([88], 5);
+     mkStep (LGet 2 GOk (TOk 6)) ROk true false (Some rX) (Some rX) ([88], 6);
+     mkStep (LUpdate 1 idA rA COk (TOk 7)) ROk true false None (Some rA) ([88], 7);
+     mkStep (LInfo 2) ROk false false None (Some rA) ([88], 6);
+     mkStep (LUpdate 2 idB rB COk (TOk 8)) ROk true false None (Some rB) ([88], 8)]) = Some 0.
 Proof. vm_compute. reflexivity. Qed.
